@@ -587,6 +587,79 @@ def run(tier, seed):
     if res["sync"] != res["async"] or res["sync"] != ("propagated", ["enter"]):
         fails += 1
         rep.violation("neutrality:enter_context", {"why": "a context manager whose entering raises, given to ExitStack.enter_context (outcome, calls): %r" % (res,)})
+    # lru_cache / cache / cached_property around every flavour of async callable -- an `async def`, a partial of one, a callable
+    # object, a function handing out a coroutine --, stored on a class and used through an instance: the same behaviour
+    def _cached_members():
+        async def method(self, x):
+            return (self.tag, x)
+
+        async def getter(self):
+            return ("value", self.tag)
+
+        async def two(prefix, self, x=None):
+            return (self.tag, x) if x is not None else ("value", self.tag)
+
+        class MethObj:
+            def __get__(self, instance, owner=None):       # a callable object that is a descriptor, like a function
+                return self if instance is None else functools.partial(self, instance)
+
+            async def __call__(self, inst, x):
+                return (inst.tag, x)
+
+        class PlainObj:                                     # a callable object without __get__: the cache binds it all the same
+            async def __call__(self, inst, x):
+                return (inst.tag, x)
+
+        def returns_coroutine(self, x):
+            return method(self, x)
+
+        def getter_returns_coroutine(self):
+            return getter(self)
+
+        class GetObj:
+            __name__, __qualname__, __doc__, __module__ = "GetObj", "GetObj", None, __name__
+
+            async def __call__(self, inst):
+                return ("value", inst.tag)
+        out = {}
+        for label, deco in (("lru_cache", a.lru_cache), ("lru_cache(maxsize=2)", a.lru_cache(maxsize=2)), ("cache", a.cache), ("lru_cache(None)", a.lru_cache(maxsize=None))):
+            for fl, fn in (("async def", method), ("function returning a coroutine", returns_coroutine), ("descriptor object", MethObj()),
+                           ("partial", functools.partial(two, "p")), ("callable object", PlainObj())):
+                try:
+                    class Owner:
+                        tag = "t"
+                        m = deco(fn)
+                    o = Owner()
+                    out[(label, fl)] = repr(drive(_two_calls(o)))
+                except BaseException as e:  # noqa
+                    out[(label, fl)] = "raised %r" % (e,)
+        for label, deco in (("cached_property", a.cached_property), ("cached_property(lock)", a.cached_property(a.nullcontext))):
+            for fl, fn in (("async def", getter), ("function returning a coroutine", getter_returns_coroutine), ("partial", functools.partial(two, "p")), ("callable object", GetObj())):
+                if label == "cached_property" and fl in ("function returning a coroutine", "callable object"):
+                    continue      # (the bare decorator form insists on something inspect recognises as a coroutine function)
+                try:
+                    class OwnerP:
+                        tag = "t"
+                        data = deco(fn)
+                    OwnerP.data.__set_name__(OwnerP, "data") if getattr(OwnerP.data, "attrname", "x") is None else None
+                    p_ = OwnerP()
+                    out[(label, fl)] = repr(drive(_two_gets(p_)))
+                except BaseException as e:  # noqa
+                    out[(label, fl)] = "raised %r" % (e,)
+        return out
+
+    async def _two_calls(o):
+        return [await o.m(1), await o.m(1), await o.m(2)]
+
+    async def _two_gets(o):
+        return [await o.data, await o.data]
+    members = _cached_members()
+    for label in sorted({k[0] for k in members}):
+        res = {fl: v for (lb, fl), v in members.items() if lb == label}
+        rep.count(("cached-member-flavours", label), True)
+        if len(set(res.values())) != 1 or "raised" in next(iter(res.values())):
+            fails += 1
+            rep.violation("neutrality:cached-members", {"decorator": label, "why": "%s around each flavour of async callable, used through an instance: %r" % (label, res)})
     # every public callable is async-shaped for synchronous arguments
     probes = api_probes()
     for nm in a.__all__:
